@@ -19,7 +19,7 @@ func init() {
 			"NOT decided: numerical equality of the two evaluation paths, cross-generation overwrites, memtable/file merging.",
 		Assumptions: commonAssumptions,
 		Technique:   "static analysis: predicate-shape equivalence by truth table, guard dominance and else-branch checks on go/cfg, interval-predicate lattice for loop exits, who-writes tables, must-precede of accumulator reset",
-		Rules:       "C09.R1 R2 R3 R4 R5 R6",
+		Rules:       "C09.R1 R2 R3 R4 R5 R6 R7 R8",
 	}
 }
 
@@ -394,4 +394,72 @@ func c09loopExits(c *an.Ctx, r *an.Rule, f *an.Fn) int {
 		return true
 	})
 	return n
+}
+
+func init() {
+	old := All["C09"].Run
+	All["C09"].Run = func(c *an.Ctx) {
+		old(c)
+		c09round2(c)
+	}
+}
+
+func c09round2(c *an.Ctx) {
+	const E = "engine"
+	// R7: statistics of the memtable rows.  With several calls in one query a series whose
+	// unflushed rows lack ONE of the fields must still contribute its other fields: the
+	// iterator is reset (memtable contribution dropped) only when that field is the only call.
+	r := c.Rule("C09.R7", "K-GUARD(siblings)", E+":(*recordIter).set*ColumnMeta — a missing field drops the memtable contribution only when it is the query's only call")
+	n := 0
+	for _, ty := range []string{"Int", "Float", "Bool", "String"} {
+		f := fn(r, E+":recordIter.set"+ty+"ColumnMeta")
+		if f == nil {
+			continue
+		}
+		reset := f.Find(call(r, E+":recordIter.reset"))
+		if r.Failed() {
+			break
+		}
+		n += reset.Len()
+		if reset.Len() == 0 {
+			continue // no reset at all: the contribution is never dropped
+		}
+		f.Guarded(r, reset, "reset only when len(ops) == 1", an.AtomIs("1==len(p3)", true))
+	}
+	r.AddSites(n)
+	r.Floor(4, "reset sites in the set*ColumnMeta siblings")
+
+	// R8: a statistics record of an out-of-order file that is kept across calls is a copy:
+	// DataBlockInfo.record lives in the file cursor's small circular record pool.
+	r8 := c.Rule("C09.R8", "K-OWNERSHIP", E+":(*fileLoopCursor).initOutOfOrderItersByRecordWhenPreAgg keeps a copy of the pooled statistics record, never the pooled record itself")
+	if f := fn(r8, E+":fileLoopCursor.initOutOfOrderItersByRecordWhenPreAgg"); f != nil {
+		k := 0
+		ast.Inspect(f.Body, func(m ast.Node) bool {
+			ce, ok := m.(*ast.CallExpr)
+			if !ok || len(ce.Args) != 1 {
+				return true
+			}
+			sel, ok := ce.Fun.(*ast.SelectorExpr)
+			if !ok || sel.Sel.Name != "init" {
+				return true
+			}
+			k++
+			arg := ast.Unparen(ce.Args[0])
+			// accepted: a Copy()/Clone() of the pooled record, or the record the iterator already owns
+			if ac, ok := arg.(*ast.CallExpr); ok {
+				if as, ok := ac.Fun.(*ast.SelectorExpr); ok && (as.Sel.Name == "Copy" || as.Sel.Name == "Clone" || as.Sel.Name == "CopyWithCondition") {
+					return true
+				}
+			}
+			cn := f.Canon(arg)
+			if strings.HasPrefix(cn, "p0.") {
+				r8.Fail(f.Name+": pooled record kept", c.P.Pos(ce.Pos()), "%s stores %s, the record of the file cursor's circular pool, in the per-series iterator: after two more reads from the same file the slot is overwritten and the statistics of different series are mixed", f.Name, types.ExprString(arg))
+			}
+			return true
+		})
+		r8.AddSites(k)
+		if k == 0 {
+			r8.Fail(f.Name+": shape", c.P.Pos(f.Body.Pos()), "no iter.init call found")
+		}
+	}
 }
